@@ -37,7 +37,7 @@ use std::sync::Arc;
 pub const META: PropertyMeta = PropertyMeta {
     id: "C19",
     level: "exploration",
-    rule: "upgrade: a file-system data dir with 1..3 accounts, each built by a proptest-generated content history (1..12 account-level ops of the C01 set on a cipher x KDF cell: secrets of all kinds, folders with flags, names, descriptions; optionally 1..2 rewrites (compaction, folder / account password change, cipher+KDF change); optionally a folder that is created, filled and deleted; optionally one external file attachment; 0..3 account preferences, 0..2 global preferences, 0..3 server origins, 0..2 extra trusted devices of which some are revoked again). Every account is signed out, upgrade_accounts runs as a dry run (every source file must stay byte-identical and present, no database file may appear, the reported account list is the created one) and then for real (keep_stale_files and backup_directory drawn per case). Every account is then opened on the sqlite backend with the same password and compared with what was recorded before the upgrade: sync_status log by log (last commit, root, length for identity, account, device, files and every folder; folder set), every log record by record (time, commit hash, event bytes), the C01 read oracle against the history's model (folders, names, flags, descriptions, every decrypted secret, deleted ids absent), the C02 oracle (replay == memory == stored rows == model), trusted devices, account and global preferences, server origins, attachment plaintext through download_file, account list and labels. upgrade-server: the same generated client accounts are turned into server-side fs accounts with ServerStorage::create_account(CreateSet) under Paths::new_server (attachment ciphertext copied into the server's files dir), then dry run + upgrade + per account: sync_status, log records, device keys, folder summaries, the replay of every server folder log decrypted with the client's folder key equal to the model, name / flags / description and secret-id set of the stored (header-only) server vaults, blob files byte-identical. differential: one generated history (1..25 ops of the C01 read mix incl. folder-level ops with caller-chosen ids, sign-out/in and fresh instances) executed step by step on a fresh fs account and a fresh sqlite account with the same cipher and KDF; after every step both pass the C01 read oracle and their models agree slot by slot (folders by creation order, secrets by creation order); at the end the two accounts are read directly and compared slot by slot (folder name, flags, description, projected meta and secret of every live secret) and the lengths of the identity, account, device, files and per-folder event logs are equal. upgrade-sync: an fs device (cipher x KDF cell) makes 0..6 generated sync-level edits and syncs with an in-process server (fs or sqlite), then makes 0..4 more edits without syncing; the device is signed out, upgraded, reopened on sqlite and put behind the same server: its sync status must be unchanged by the upgrade, its first execute_sync must succeed without entering conflict resolution (no scan request on the wire), and after syncing its status equals the server's; non-trivial = synced and unsynced edits both present. Non-trivial (upgrade, upgrade-server) = at least 2 accounts in the dir and one of them deleted a folder; non-trivial (differential) = the history deleted or moved a secret and later reopened. Distinct = distinct case.",
+    rule: "upgrade: a file-system data dir with 1..3 accounts, each built by a proptest-generated content history (1..12 account-level ops of the C01 set on a cipher x KDF cell: secrets of all kinds, folders with flags, names, descriptions; optionally 1..2 rewrites (compaction, folder / account password change, cipher+KDF change); optionally a folder that is created, filled and deleted; optionally one external file secret carrying 0..2 further external files as custom-field attachments (several blobs in one secret directory); 0..3 account preferences, 0..2 global preferences, 0..3 server origins, 0..2 extra trusted devices of which some are revoked again). Every account is signed out, upgrade_accounts runs as a dry run (every source file must stay byte-identical and present, no database file may appear, the reported account list is the created one) and then for real (keep_stale_files and backup_directory drawn per case). Every account is then opened on the sqlite backend with the same password and compared with what was recorded before the upgrade: sync_status log by log (last commit, root, length for identity, account, device, files and every folder; folder set), every log record by record (time, commit hash, event bytes), the C01 read oracle against the history's model (folders, names, flags, descriptions, every decrypted secret, deleted ids absent), the C02 oracle (replay == memory == stored rows == model), trusted devices, account and global preferences, server origins, attachment plaintext through download_file, account list and labels. upgrade-server: the same generated client accounts are turned into server-side fs accounts with ServerStorage::create_account(CreateSet) under Paths::new_server (attachment ciphertext copied into the server's files dir), then dry run + upgrade + per account: sync_status, log records, device keys, folder summaries, the replay of every server folder log decrypted with the client's folder key equal to the model, name / flags / description and secret-id set of the stored (header-only) server vaults, blob files byte-identical. differential: one generated history (1..25 ops of the C01 read mix incl. folder-level ops with caller-chosen ids, sign-out/in and fresh instances) executed step by step on a fresh fs account and a fresh sqlite account with the same cipher and KDF; after every step both pass the C01 read oracle and their models agree slot by slot (folders by creation order, secrets by creation order); at the end the two accounts are read directly and compared slot by slot (folder name, flags, description, projected meta and secret of every live secret) and the lengths of the identity, account, device, files and per-folder event logs are equal. upgrade-sync: an fs device (cipher x KDF cell) makes 0..6 generated sync-level edits and syncs with an in-process server (fs or sqlite), then makes 0..4 more edits without syncing; the device is signed out, upgraded, reopened on sqlite and put behind the same server: its sync status must be unchanged by the upgrade, its first execute_sync must succeed without entering conflict resolution (no scan request on the wire), and after syncing its status equals the server's; non-trivial = synced and unsynced edits both present. Non-trivial (upgrade, upgrade-server) = at least 2 accounts in the dir and one of them deleted a folder; non-trivial (differential) = the history deleted or moved a secret and later reopened. Distinct = distinct case.",
     assumptions: &[
         "the post-upgrade sync against a server holding the pre-upgrade state needs engine B and is not covered here (hook: run_sync_part)",
         "audit trail and system messages are imported by the upgrader but are not named by the property and are not compared",
@@ -95,6 +95,9 @@ pub struct AttachSpec {
     pub folder: u16,
     pub size: u16,
     pub seed: u8,
+    /// further external files attached to the same secret as custom fields
+    #[serde(default)]
+    pub extra: u8,
 }
 
 #[derive(Clone, Debug, Serialize, Deserialize, PartialEq, Eq, Hash)]
@@ -165,7 +168,7 @@ fn plan_strategy(max_ops: usize, attach_weight: u32) -> impl Strategy<Value = Ac
         proptest::collection::vec((any::<[u8; 32]>(), "[a-z]{1,8}", any::<bool>()).prop_map(|(key, label, revoke)| DevSpec { key, label, revoke }), 0..3),
         prop_oneof![
             (100 - attach_weight) => Just(None),
-            attach_weight => (any::<u16>(), 0u16..3000, any::<u8>()).prop_map(|(folder, size, seed)| Some(AttachSpec { folder, size, seed })),
+            attach_weight => (any::<u16>(), 0u16..3000, any::<u8>(), prop_oneof![2 => Just(0u8), 2 => Just(1u8), 1 => Just(2u8)]).prop_map(|(folder, size, seed, extra)| Some(AttachSpec { folder, size, seed, extra })),
         ],
     )
         .prop_map(|(mut history, rewrites, deleted_folder, prefs, servers, devices, attachment)| {
@@ -473,9 +476,43 @@ async fn build_account(temp: Arc<tempfile::TempDir>, plain_dir: &Path, index: us
         if got != plain {
             return Err(Failure::new("c19/source/download-differs", format!("[source account {index}] download_file on the file system returns {} bytes, {} written", got.len(), plain.len())));
         }
+        attachments.push(Attachment { folder: fid, secret: res.id, file_name, plain });
+        // further external files on the same secret (custom fields): several blobs in one
+        // secret directory
+        let mut row = row;
+        for k in 0..a.extra {
+            let extra = AttachSpec { folder: a.folder, size: a.size / 2 + 17 * (k as u16 + 1), seed: a.seed.wrapping_add(101).wrapping_add(k), extra: 0 };
+            let plain = attachment_bytes(&extra);
+            let path = plain_dir.join(format!("attachment-{index}-extra-{k}.txt"));
+            std::fs::write(&path, &plain).map_err(h("write attachment source"))?;
+            let fsecret: Secret = path.clone().try_into().map_err(h("Secret from path"))?;
+            let fmeta = SecretMeta::new(format!("extra {k}"), fsecret.kind());
+            let field_id = uuid::Uuid::from_bytes({
+                let d = Sha256::digest([b'f', index as u8, k, a.seed]);
+                let mut b = [0u8; 16];
+                b.copy_from_slice(&d[..16]);
+                b
+            });
+            row.secret_mut().add_field(sos_vault::secret::SecretRow::new(field_id, fmeta, fsecret));
+            w.account
+                .update_secret(&res.id, row.meta().clone(), Some(row.secret().clone()), AccessOptions { folder: Some(fid), ..Default::default() })
+                .await
+                .map_err(|e| Failure::new("c19/source/add-attachment-error", format!("[source account {index}] update_secret(add file attachment): {e}")))?;
+            let (r2, _) = w.account.read_secret(&res.id, Some(&fid)).await.map_err(|e| Failure::new("c19/source/read-file-secret-error", format!("[source account {index}] read_secret after adding an attachment: {e}")))?;
+            row = r2;
+            let field = row.secret().user_data().fields().iter().find(|f| f.id() == &field_id).ok_or_else(|| Failure::new("c19/source/attachment-field-missing", "the added attachment field is not served"))?;
+            let Secret::File { content: FileContent::External { checksum, .. }, .. } = field.secret() else {
+                return Err(Failure::new("c19/source/file-secret-not-external", format!("[source account {index}] an attachment created from a path is not stored as an external file")));
+            };
+            let file_name = ExternalFileName::from(checksum);
+            let got = w.account.download_file(&fid, &res.id, &file_name).await.map_err(|e| Failure::new("c19/source/download-error", format!("[source account {index}] download_file of an attachment on the file system: {e}")))?;
+            if got != plain {
+                return Err(Failure::new("c19/source/download-differs", format!("[source account {index}] download_file of an attachment returns {} bytes, {} written", got.len(), plain.len())));
+            }
+            attachments.push(Attachment { folder: fid, secret: res.id, file_name, plain });
+        }
         let spec = SecretSpec { kind: 1, label: format!("attachment {index}"), tags: vec![], favorite: false, a: String::new(), b: String::new(), big: 0, comment: None, recovery: None, fields: 0, opt: false };
         w.model.folders[fi].secrets.push(MSecret { id: res.id, meta: proj_meta(row.meta()), secret: proj_secret(row.secret()), spec });
-        attachments.push(Attachment { folder: fid, secret: res.id, file_name, plain });
     }
     // trusted devices
     for (i, d) in plan.devices.iter().enumerate() {
@@ -564,6 +601,9 @@ fn note_classes(info: &mut CaseInfo, befores: &[Before]) {
         }
         if let Some(l) = &b.stale_live_status {
             info.class(format!("observed/live-instance-status-stale/{l}"));
+        }
+        if b.attachments.len() > 1 {
+            info.class("secret-with-several-external-files");
         }
         if !b.attachments.is_empty() {
             info.class("attachment");
